@@ -117,8 +117,8 @@ mod verif_kani {
         let n: usize = kani::any();
         let i: usize = kani::any();
         kani::assume(i < 256 && n < 256);
-        assert!(bit(&shl256(&a, n), i) == (n <= i && bit(&a, i - n)), "spec_shl256/bit-i-is-bit-i-minus-n");
-        assert!(bit(&shl254(&a, n), i) == (n <= i && i < 254 && bit(&a, i - n)), "spec_shl254/bit-i-is-bit-i-minus-n-below-254");
+        kani::assert(bit(&shl256(&a, n), i) == (n <= i && bit(&a, i - n)), "spec_shl256/bit-i-is-bit-i-minus-n");
+        kani::assert(bit(&shl254(&a, n), i) == (n <= i && i < 254 && bit(&a, i - n)), "spec_shl254/bit-i-is-bit-i-minus-n-below-254");
     }
 
     // ---- shr -----------------------------------------------------------------------------------------------
@@ -131,10 +131,10 @@ mod verif_kani {
         let i: usize = kani::any();
         kani::assume(i < 256);
         let which: u8 = kani::any();
-        if which == 0 { assert!(lt4(&r, &P), "shr/canonical"); }
+        if which == 0 { kani::assert(lt4(&r, &P), "shr/canonical"); }
         if which == 1 {
             let expect = small(&b) && i + (b[0] as usize) < 254 && bit(&a, i + b[0] as usize);
-            assert!(bit(&r, i) == expect, "shr/bit-i-is-bit-i-plus-n-zero-from-254");
+            kani::assert(bit(&r, i) == expect, "shr/bit-i-is-bit-i-plus-n-zero-from-254");
         }
     }
 
@@ -147,8 +147,8 @@ mod verif_kani {
         let b = any_p();
         let r = l(shl(fr(a), fr(b)));
         let which: u8 = kani::any();
-        if which == 0 { assert!(lt4(&r, &P), "shl/canonical"); }
-        if which == 1 { assert!(eq4(&r, &shl_spec(&a, &b)), "shl/is-shift-masked-254-reduced-mod-p"); }
+        if which == 0 { kani::assert(lt4(&r, &P), "shl/canonical"); }
+        if which == 1 { kani::assert(eq4(&r, &shl_spec(&a, &b)), "shl/is-shift-masked-254-reduced-mod-p"); }
     }
     // sibling: whenever the 256-bit shifted value is already a canonical element the function is right
     // (this is the domain on which the current code does not crash)
@@ -159,8 +159,8 @@ mod verif_kani {
         let b = any_p();
         kani::assume(!small(&b) || lt4(&shl256(&a, b[0] as usize), &P));
         let r = l(shl(fr(a), fr(b)));
-        assert!(lt4(&r, &P), "shl/canonical-when-shifted-value-below-p");
-        assert!(eq4(&r, &shl_spec(&a, &b)), "shl/correct-when-shifted-value-below-p");
+        kani::assert(lt4(&r, &P), "shl/canonical-when-shifted-value-below-p");
+        kani::assert(eq4(&r, &shl_spec(&a, &b)), "shl/correct-when-shifted-value-below-p");
     }
 
     // ---- bit_and / bit_or / bit_xor ---------------------------------------------------------------------------
@@ -171,8 +171,8 @@ mod verif_kani {
         let b = any_p();
         let r = l(bit_and(fr(a), fr(b)));
         let which: u8 = kani::any();
-        if which == 0 { assert!(lt4(&r, &P), "bit_and/canonical"); }
-        if which == 1 { assert!(eq4(&r, &red1(&bw(&a, &b, 0))), "bit_and/is-and-reduced-mod-p"); }
+        if which == 0 { kani::assert(lt4(&r, &P), "bit_and/canonical"); }
+        if which == 1 { kani::assert(eq4(&r, &red1(&bw(&a, &b, 0))), "bit_and/is-and-reduced-mod-p"); }
     }
     #[kani::proof]
     #[kani::unwind(34)]
@@ -181,8 +181,8 @@ mod verif_kani {
         let b = any_p();
         let r = l(bit_or(fr(a), fr(b)));
         let which: u8 = kani::any();
-        if which == 0 { assert!(lt4(&r, &P), "bit_or/canonical"); }
-        if which == 1 { assert!(eq4(&r, &red1(&bw(&a, &b, 1))), "bit_or/is-or-reduced-mod-p"); }
+        if which == 0 { kani::assert(lt4(&r, &P), "bit_or/canonical"); }
+        if which == 1 { kani::assert(eq4(&r, &red1(&bw(&a, &b, 1))), "bit_or/is-or-reduced-mod-p"); }
     }
     #[kani::proof]
     #[kani::unwind(34)]
@@ -191,8 +191,8 @@ mod verif_kani {
         let b = any_p();
         kani::assume(!eq4(&bw(&a, &b, 1), &P));
         let r = l(bit_or(fr(a), fr(b)));
-        assert!(lt4(&r, &P), "bit_or/canonical-when-or-differs-from-p");
-        assert!(eq4(&r, &red1(&bw(&a, &b, 1))), "bit_or/correct-when-or-differs-from-p");
+        kani::assert(lt4(&r, &P), "bit_or/canonical-when-or-differs-from-p");
+        kani::assert(eq4(&r, &red1(&bw(&a, &b, 1))), "bit_or/correct-when-or-differs-from-p");
     }
     #[kani::proof]
     #[kani::unwind(34)]
@@ -201,8 +201,8 @@ mod verif_kani {
         let b = any_p();
         let r = l(bit_xor(fr(a), fr(b)));
         let which: u8 = kani::any();
-        if which == 0 { assert!(lt4(&r, &P), "bit_xor/canonical"); }
-        if which == 1 { assert!(eq4(&r, &red1(&bw(&a, &b, 2))), "bit_xor/is-xor-reduced-mod-p"); }
+        if which == 0 { kani::assert(lt4(&r, &P), "bit_xor/canonical"); }
+        if which == 1 { kani::assert(eq4(&r, &red1(&bw(&a, &b, 2))), "bit_xor/is-xor-reduced-mod-p"); }
     }
     #[kani::proof]
     #[kani::unwind(34)]
@@ -211,8 +211,8 @@ mod verif_kani {
         let b = any_p();
         kani::assume(!eq4(&bw(&a, &b, 2), &P));
         let r = l(bit_xor(fr(a), fr(b)));
-        assert!(lt4(&r, &P), "bit_xor/canonical-when-xor-differs-from-p");
-        assert!(eq4(&r, &red1(&bw(&a, &b, 2))), "bit_xor/correct-when-xor-differs-from-p");
+        kani::assert(lt4(&r, &P), "bit_xor/canonical-when-xor-differs-from-p");
+        kani::assert(eq4(&r, &red1(&bw(&a, &b, 2))), "bit_xor/correct-when-xor-differs-from-p");
     }
 
     // ---- UnoOperation::eval_fr(Neg), fr_to_u256 / u256_to_fr ----------------------------------------------------
@@ -222,18 +222,18 @@ mod verif_kani {
         let a = any_p();
         let r = l(UnoOperation::Neg.eval_fr(fr(a)));
         let which: u8 = kani::any();
-        if which == 0 { assert!(lt4(&r, &P), "UnoOperation_eval_fr/neg-canonical"); }
-        if which == 1 { assert!(eq4(&r, &submod(&ZERO, &a)), "UnoOperation_eval_fr/neg-is-zero-minus-a-mod-p"); }
-        if which == 2 { assert!(eq4(&addmod(&a, &r), &ZERO), "UnoOperation_eval_fr/neg-is-additive-inverse"); }
+        if which == 0 { kani::assert(lt4(&r, &P), "UnoOperation_eval_fr/neg-canonical"); }
+        if which == 1 { kani::assert(eq4(&r, &submod(&ZERO, &a)), "UnoOperation_eval_fr/neg-is-zero-minus-a-mod-p"); }
+        if which == 2 { kani::assert(eq4(&addmod(&a, &r), &ZERO), "UnoOperation_eval_fr/neg-is-additive-inverse"); }
     }
     #[kani::proof]
     #[kani::unwind(34)]
     fn fr_u256_roundtrip() {
         let a = any_p();
         let x = fr_to_u256(&fr(a));
-        assert!(eq4(x.as_limbs(), &a), "fr_to_u256/is-canonical-integer");
+        kani::assert(eq4(x.as_limbs(), &a), "fr_to_u256/is-canonical-integer");
         let back = l(u256_to_fr(&x));
-        assert!(eq4(&back, &a), "u256_to_fr/inverse-of-fr_to_u256-on-canonical-values");
+        kani::assert(eq4(&back, &a), "u256_to_fr/inverse-of-fr_to_u256-on-canonical-values");
     }
 
     // ---- Operation::eval_fr against the statement ------------------------------------------------------------------
@@ -244,14 +244,14 @@ mod verif_kani {
         let b = any_p();
         let (ka, kb) = (key(&a), key(&b));
         let which: u8 = kani::any();
-        if which == 0 { assert!(eq4(&l(Operation::Eq.eval_fr(fr(a), fr(b))), &b2l(eq4(&a, &b))), "Operation_eval_fr/eq"); }
-        if which == 1 { assert!(eq4(&l(Operation::Neq.eval_fr(fr(a), fr(b))), &b2l(!eq4(&a, &b))), "Operation_eval_fr/neq"); }
-        if which == 2 { assert!(eq4(&l(Operation::Lt.eval_fr(fr(a), fr(b))), &b2l(lt4(&ka, &kb))), "Operation_eval_fr/lt-signed"); }
-        if which == 3 { assert!(eq4(&l(Operation::Gt.eval_fr(fr(a), fr(b))), &b2l(lt4(&kb, &ka))), "Operation_eval_fr/gt-signed"); }
-        if which == 4 { assert!(eq4(&l(Operation::Leq.eval_fr(fr(a), fr(b))), &b2l(!lt4(&kb, &ka))), "Operation_eval_fr/leq-signed"); }
-        if which == 5 { assert!(eq4(&l(Operation::Geq.eval_fr(fr(a), fr(b))), &b2l(!lt4(&ka, &kb))), "Operation_eval_fr/geq-signed"); }
-        if which == 6 { assert!(eq4(&l(Operation::Land.eval_fr(fr(a), fr(b))), &b2l(!eq4(&a, &ZERO) && !eq4(&b, &ZERO))), "Operation_eval_fr/land"); }
-        if which == 7 { assert!(eq4(&l(Operation::Lor.eval_fr(fr(a), fr(b))), &b2l(!eq4(&a, &ZERO) || !eq4(&b, &ZERO))), "Operation_eval_fr/lor"); }
+        if which == 0 { kani::assert(eq4(&l(Operation::Eq.eval_fr(fr(a), fr(b))), &b2l(eq4(&a, &b))), "Operation_eval_fr/eq"); }
+        if which == 1 { kani::assert(eq4(&l(Operation::Neq.eval_fr(fr(a), fr(b))), &b2l(!eq4(&a, &b))), "Operation_eval_fr/neq"); }
+        if which == 2 { kani::assert(eq4(&l(Operation::Lt.eval_fr(fr(a), fr(b))), &b2l(lt4(&ka, &kb))), "Operation_eval_fr/lt-signed"); }
+        if which == 3 { kani::assert(eq4(&l(Operation::Gt.eval_fr(fr(a), fr(b))), &b2l(lt4(&kb, &ka))), "Operation_eval_fr/gt-signed"); }
+        if which == 4 { kani::assert(eq4(&l(Operation::Leq.eval_fr(fr(a), fr(b))), &b2l(!lt4(&kb, &ka))), "Operation_eval_fr/leq-signed"); }
+        if which == 5 { kani::assert(eq4(&l(Operation::Geq.eval_fr(fr(a), fr(b))), &b2l(!lt4(&ka, &kb))), "Operation_eval_fr/geq-signed"); }
+        if which == 6 { kani::assert(eq4(&l(Operation::Land.eval_fr(fr(a), fr(b))), &b2l(!eq4(&a, &ZERO) && !eq4(&b, &ZERO))), "Operation_eval_fr/land"); }
+        if which == 7 { kani::assert(eq4(&l(Operation::Lor.eval_fr(fr(a), fr(b))), &b2l(!eq4(&a, &ZERO) || !eq4(&b, &ZERO))), "Operation_eval_fr/lor"); }
     }
     #[kani::proof]
     #[kani::unwind(34)]
@@ -260,11 +260,11 @@ mod verif_kani {
         let b = any_p();
         let which: u8 = kani::any();
         // Add / Sub: dispatch onto the field's + and - (modelled as addition / subtraction mod p)
-        if which == 0 { assert!(eq4(&l(Operation::Add.eval_fr(fr(a), fr(b))), &addmod(&a, &b)), "Operation_eval_fr/add-is-sum-mod-p"); }
-        if which == 1 { assert!(eq4(&l(Operation::Sub.eval_fr(fr(a), fr(b))), &submod(&a, &b)), "Operation_eval_fr/sub-is-difference-mod-p"); }
-        if which == 2 { assert!(eq4(&l(Operation::Idiv.eval_fr(fr(a), fr(ZERO))), &ZERO), "Operation_eval_fr/idiv-by-zero-is-zero"); }
-        if which == 3 { assert!(eq4(&l(Operation::Mod.eval_fr(fr(a), fr(ZERO))), &ZERO), "Operation_eval_fr/mod-by-zero-is-zero"); }
-        if which == 4 { assert!(eq4(&l(Operation::Div.eval_fr(fr(a), fr(ZERO))), &ZERO), "Operation_eval_fr/div-by-zero-is-zero"); }
+        if which == 0 { kani::assert(eq4(&l(Operation::Add.eval_fr(fr(a), fr(b))), &addmod(&a, &b)), "Operation_eval_fr/add-is-sum-mod-p"); }
+        if which == 1 { kani::assert(eq4(&l(Operation::Sub.eval_fr(fr(a), fr(b))), &submod(&a, &b)), "Operation_eval_fr/sub-is-difference-mod-p"); }
+        if which == 2 { kani::assert(eq4(&l(Operation::Idiv.eval_fr(fr(a), fr(ZERO))), &ZERO), "Operation_eval_fr/idiv-by-zero-is-zero"); }
+        if which == 3 { kani::assert(eq4(&l(Operation::Mod.eval_fr(fr(a), fr(ZERO))), &ZERO), "Operation_eval_fr/mod-by-zero-is-zero"); }
+        if which == 4 { kani::assert(eq4(&l(Operation::Div.eval_fr(fr(a), fr(ZERO))), &ZERO), "Operation_eval_fr/div-by-zero-is-zero"); }
     }
     // Shl Shr Band Bor Bxor dispatch onto the helpers (on the helpers' no-panic domain)
     #[kani::proof]
@@ -273,16 +273,16 @@ mod verif_kani {
         let a = any_p();
         let b = any_p();
         let which: u8 = kani::any();
-        if which == 0 { assert!(Operation::Shr.eval_fr(fr(a), fr(b)) == shr(fr(a), fr(b)), "Operation_eval_fr/shr-is-shr"); }
-        if which == 1 { assert!(Operation::Band.eval_fr(fr(a), fr(b)) == bit_and(fr(a), fr(b)), "Operation_eval_fr/band-is-bit_and"); }
+        if which == 0 { kani::assert(Operation::Shr.eval_fr(fr(a), fr(b)) == shr(fr(a), fr(b)), "Operation_eval_fr/shr-is-shr"); }
+        if which == 1 { kani::assert(Operation::Band.eval_fr(fr(a), fr(b)) == bit_and(fr(a), fr(b)), "Operation_eval_fr/band-is-bit_and"); }
         if which == 2 && (!small(&b) || lt4(&shl256(&a, b[0] as usize), &P)) {
-            assert!(Operation::Shl.eval_fr(fr(a), fr(b)) == shl(fr(a), fr(b)), "Operation_eval_fr/shl-is-shl");
+            kani::assert(Operation::Shl.eval_fr(fr(a), fr(b)) == shl(fr(a), fr(b)), "Operation_eval_fr/shl-is-shl");
         }
         if which == 3 && !eq4(&bw(&a, &b, 1), &P) {
-            assert!(Operation::Bor.eval_fr(fr(a), fr(b)) == bit_or(fr(a), fr(b)), "Operation_eval_fr/bor-is-bit_or");
+            kani::assert(Operation::Bor.eval_fr(fr(a), fr(b)) == bit_or(fr(a), fr(b)), "Operation_eval_fr/bor-is-bit_or");
         }
         if which == 4 && !eq4(&bw(&a, &b, 2), &P) {
-            assert!(Operation::Bxor.eval_fr(fr(a), fr(b)) == bit_xor(fr(a), fr(b)), "Operation_eval_fr/bxor-is-bit_xor");
+            kani::assert(Operation::Bxor.eval_fr(fr(a), fr(b)) == bit_xor(fr(a), fr(b)), "Operation_eval_fr/bxor-is-bit_xor");
         }
     }
     #[kani::proof]
@@ -292,7 +292,7 @@ mod verif_kani {
         let b = any_p();
         let c = any_p();
         let r = l(TresOperation::TernCond.eval_fr(fr(a), fr(b), fr(c)));
-        assert!(eq4(&r, &if !eq4(&a, &ZERO) { b } else { c }), "TresOperation_eval_fr/terncond-selects-b-iff-a-nonzero");
+        kani::assert(eq4(&r, &if !eq4(&a, &ZERO) { b } else { c }), "TresOperation_eval_fr/terncond-selects-b-iff-a-nonzero");
     }
 
     // ---- the two evaluators agree wherever both are defined ------------------------------------------------------------
@@ -307,14 +307,14 @@ mod verif_kani {
         let a = any_p();
         let b = any_p();
         let which: u8 = kani::any();
-        if which == 0 { assert!(agree(Operation::Eq, &a, &b), "evaluators/agree-eq"); }
-        if which == 1 { assert!(agree(Operation::Neq, &a, &b), "evaluators/agree-neq"); }
-        if which == 2 { assert!(agree(Operation::Lt, &a, &b), "evaluators/agree-lt"); }
-        if which == 3 { assert!(agree(Operation::Gt, &a, &b), "evaluators/agree-gt"); }
-        if which == 4 { assert!(agree(Operation::Leq, &a, &b), "evaluators/agree-leq"); }
-        if which == 5 { assert!(agree(Operation::Geq, &a, &b), "evaluators/agree-geq"); }
-        if which == 6 { assert!(agree(Operation::Land, &a, &b), "evaluators/agree-land"); }
-        if which == 7 { assert!(agree(Operation::Lor, &a, &b), "evaluators/agree-lor"); }
+        if which == 0 { kani::assert(agree(Operation::Eq, &a, &b), "evaluators/agree-eq"); }
+        if which == 1 { kani::assert(agree(Operation::Neq, &a, &b), "evaluators/agree-neq"); }
+        if which == 2 { kani::assert(agree(Operation::Lt, &a, &b), "evaluators/agree-lt"); }
+        if which == 3 { kani::assert(agree(Operation::Gt, &a, &b), "evaluators/agree-gt"); }
+        if which == 4 { kani::assert(agree(Operation::Leq, &a, &b), "evaluators/agree-leq"); }
+        if which == 5 { kani::assert(agree(Operation::Geq, &a, &b), "evaluators/agree-geq"); }
+        if which == 6 { kani::assert(agree(Operation::Land, &a, &b), "evaluators/agree-land"); }
+        if which == 7 { kani::assert(agree(Operation::Lor, &a, &b), "evaluators/agree-lor"); }
     }
     #[kani::proof]
     #[kani::unwind(34)]
@@ -322,11 +322,11 @@ mod verif_kani {
         let a = any_p();
         let b = any_p();
         let which: u8 = kani::any();
-        if which == 0 { assert!(agree(Operation::Add, &a, &b), "evaluators/agree-add"); }
-        if which == 1 { assert!(agree(Operation::Sub, &a, &b), "evaluators/agree-sub"); }
-        if which == 2 { assert!(agree(Operation::Band, &a, &b), "evaluators/agree-band"); }
+        if which == 0 { kani::assert(agree(Operation::Add, &a, &b), "evaluators/agree-add"); }
+        if which == 1 { kani::assert(agree(Operation::Sub, &a, &b), "evaluators/agree-sub"); }
+        if which == 2 { kani::assert(agree(Operation::Band, &a, &b), "evaluators/agree-band"); }
         // eval's Shr is defined (debug_assert) for counts below 256 only
-        if which == 3 && lt256(&b) { assert!(agree(Operation::Shr, &a, &b), "evaluators/agree-shr"); }
+        if which == 3 && lt256(&b) { kani::assert(agree(Operation::Shr, &a, &b), "evaluators/agree-shr"); }
     }
     // Bor / Bxor: both are defined whenever a|b (a^b) differs from p
     #[kani::proof]
@@ -335,11 +335,11 @@ mod verif_kani {
         let a = any_p();
         let b = any_p();
         let which: u8 = kani::any();
-        if which == 0 && !eq4(&bw(&a, &b, 1), &P) { assert!(agree(Operation::Bor, &a, &b), "evaluators/agree-bor"); }
-        if which == 1 && !eq4(&bw(&a, &b, 2), &P) { assert!(agree(Operation::Bxor, &a, &b), "evaluators/agree-bxor"); }
+        if which == 0 && !eq4(&bw(&a, &b, 1), &P) { kani::assert(agree(Operation::Bor, &a, &b), "evaluators/agree-bor"); }
+        if which == 1 && !eq4(&bw(&a, &b, 2), &P) { kani::assert(agree(Operation::Bxor, &a, &b), "evaluators/agree-bxor"); }
         // siblings: below p nothing has to be reduced and the two agree
-        if which == 2 && lt4(&bw(&a, &b, 1), &P) { assert!(agree(Operation::Bor, &a, &b), "evaluators/agree-bor-when-or-below-p"); }
-        if which == 3 && lt4(&bw(&a, &b, 2), &P) { assert!(agree(Operation::Bxor, &a, &b), "evaluators/agree-bxor-when-xor-below-p"); }
+        if which == 2 && lt4(&bw(&a, &b, 1), &P) { kani::assert(agree(Operation::Bor, &a, &b), "evaluators/agree-bor-when-or-below-p"); }
+        if which == 3 && lt4(&bw(&a, &b, 2), &P) { kani::assert(agree(Operation::Bxor, &a, &b), "evaluators/agree-bxor-when-xor-below-p"); }
     }
     // Shl: eval is defined for counts below 256, eval_fr where the shifted value is below p or the count >= 254
     #[kani::proof]
@@ -349,8 +349,8 @@ mod verif_kani {
         let b = any_p();
         kani::assume(lt256(&b));
         let which: u8 = kani::any();
-        if which == 0 && small(&b) && lt4(&shl256(&a, b[0] as usize), &P) { assert!(agree(Operation::Shl, &a, &b), "evaluators/agree-shl-count-below-254"); }
-        if which == 1 && !small(&b) { assert!(agree(Operation::Shl, &a, &b), "evaluators/agree-shl-count-254-255"); }
+        if which == 0 && small(&b) && lt4(&shl256(&a, b[0] as usize), &P) { kani::assert(agree(Operation::Shl, &a, &b), "evaluators/agree-shl-count-below-254"); }
+        if which == 1 && !small(&b) { kani::assert(agree(Operation::Shl, &a, &b), "evaluators/agree-shl-count-254-255"); }
     }
     #[kani::proof]
     #[kani::unwind(34)]
@@ -362,12 +362,12 @@ mod verif_kani {
         if which == 0 {
             let x = fr_to_u256(&UnoOperation::Neg.eval_fr(fr(a)));
             let y = UnoOperation::Neg.eval(fr_to_u256(&fr(a)));
-            assert!(eq4(x.as_limbs(), y.as_limbs()), "evaluators/agree-neg");
+            kani::assert(eq4(x.as_limbs(), y.as_limbs()), "evaluators/agree-neg");
         }
         if which == 1 {
             let x = fr_to_u256(&TresOperation::TernCond.eval_fr(fr(a), fr(b), fr(c)));
             let y = TresOperation::TernCond.eval(fr_to_u256(&fr(a)), fr_to_u256(&fr(b)), fr_to_u256(&fr(c)));
-            assert!(eq4(x.as_limbs(), y.as_limbs()), "evaluators/agree-terncond");
+            kani::assert(eq4(x.as_limbs(), y.as_limbs()), "evaluators/agree-terncond");
         }
     }
     // Idiv / Mod with a non-zero divisor: both evaluators run ruint's Knuth division (attempted; see units.json)
@@ -378,7 +378,7 @@ mod verif_kani {
         let b = any_p();
         kani::assume(!eq4(&b, &ZERO));
         let which: u8 = kani::any();
-        if which == 0 { assert!(agree(Operation::Idiv, &a, &b), "evaluators/agree-idiv-nonzero-divisor"); }
-        if which == 1 { assert!(agree(Operation::Mod, &a, &b), "evaluators/agree-mod-nonzero-divisor"); }
+        if which == 0 { kani::assert(agree(Operation::Idiv, &a, &b), "evaluators/agree-idiv-nonzero-divisor"); }
+        if which == 1 { kani::assert(agree(Operation::Mod, &a, &b), "evaluators/agree-mod-nonzero-divisor"); }
     }
 }
